@@ -39,7 +39,13 @@ def extra_instances(seed):
     """operators on pytrees with several leaves / nested containers / composites: what the per-class table lacks"""
     from furax._base import axes, blocks, core, dense, diagonal, indices
     from furax.landscapes import StokesIQUPyTree, StokesQUPyTree
-    from furax.operators import hwp, qu_rotations
+    from furax.operators import hwp, qu_rotations, toeplitz
+
+    def _exact(make):
+        import lineax as lx
+        from furax import Config
+        with Config(solver=lx.LU(), solver_callback=lambda solution: None):
+            return make()
     rng = np.random.default_rng(seed + 17)
     r = lambda *sh: jnp.asarray(rng.uniform(0.5, 1.5, sh).astype(np.float32))     # noqa: E731
     tree = {'b': S((2, 3)), 'a': [S((3,)), S((1, 3))]}
@@ -80,6 +86,13 @@ def extra_instances(seed):
         'QURotationOperator{QU}': lambda: qu_rotations.QURotationOperator(r(3), qu),
         'QURotationTransposeOperator{IQU}': lambda: qu_rotations.QURotationOperator(r(2, 2), st).T,
         'Lazy(D+H).I': lambda: core.InverseOperator(D(S((3,))) + core.HomothetyOperator(1 + r(), S((3,)))),
+        # lazy inverses of symmetric operators that are NOT positive definite (exact solver, so that the
+        # column-by-column reference is trustworthy): a dense form taken through a Cholesky route is NaN here
+        'InverseOperator{HWP, indefinite}': lambda: _exact(lambda: hwp.HWPOperator(st).I),
+        'InverseOperator{Toeplitz [1, 2], indefinite}': lambda: _exact(
+            lambda: toeplitz.SymmetricBandToeplitzOperator(jnp.array([1., 2.], jnp.float32), S((4,))).I),
+        'InverseOperator{Toeplitz [3, 1], definite}': lambda: _exact(
+            lambda: toeplitz.SymmetricBandToeplitzOperator(jnp.array([3., 1.], jnp.float32), S((4,))).I),
     }
     for name, make in out.items():
         try:
